@@ -37,6 +37,9 @@ def run(rec, cfg):
     MP.attach_parser("C10", {"closure", "history"})
     rng = cfg.rng("c10")
     corp = WT.corpus()
+    from ..workloads import histories as W8b
+
+    W8b.two_parsers(rec, rng, corp, "C10", cfg.scale(6, 200))
     seen = set()
 
     def one(s, parser=None):
@@ -149,6 +152,13 @@ def outcome(p, q):
 
 
 def replay(rec, cfg, w):
+    if w.get("two_parsers"):
+        from ..workloads import histories as _W8
+        from ..workloads import text as _WT2
+
+        MP.attach_parser("C10", {"grammar", "closure"})
+        _W8.two_parsers(rec, cfg.rng("replay-two"), _WT2.corpus(), "C10", 40)
+        return
     from mathy_core.parser import ExpressionParser
 
     MP.attach_parser("C10", {"closure", "history"})
